@@ -123,7 +123,7 @@ def run(prog, R):
         R.ob("C04.2-expression-position", key, not lost, prog.body(e["caller"]).blocks[lst[e["ordinal"]][0]].term["at"],
              f"reached with all {len(e['admits'])} expression-start tokens of the frozen table" if not lost else f"expression-start token(s) {lost} no longer reach this expression position: they are diverted to another sub-parser, which cannot parse a general expression starting with them")
     R.floor("expression positions", nee, 30)
-    R.premises(prog, "C04.6-validation-premise", ["C10:C10.1-", "C15:C15.", "C11:C11.1-", "C11:C11.2-"], "a valid program gets no diagnostic from the lexer or the validation pass either: unit tables of lexer / validation / accessor agree, whitespace and directive word classes are the documented ones")
+    R.premises(prog, "C04.6-validation-premise", ["C10:C10.1-", "C15:C15.", "C11:C11.1-", "C11:C11.2-", "c01_lexer:C01.1-"], "a valid program gets no diagnostic from the lexer or the validation pass either: unit tables of lexer / validation / accessor agree, whitespace and directive word classes are the documented ones")
     # ---- C04.3 assignment binds below binary operators
     import C05
     tab = C05.op_table(G)
